@@ -1427,4 +1427,201 @@ theorem fc11_init (L : Fc11Laws P) (caps : Caps) : Fc11Inv P (init caps) := by
   cases this
   exact L.fresh _ rfl rfl rfl
 
+/-! ### client-level facts -/
+
+theorem fc11_decSend_fields (c : Client) : (decSend c).inflight = c.inflight ∧ (decSend c).recvQuota = c.recvQuota ∧
+    (decSend c).maxRecv = c.maxRecv ∧ (decSend c).maxSend = c.maxSend ∧ (decSend c).sendQuota = c.sendQuota - 1 := by
+  unfold decSend
+  split
+  · exact ⟨rfl, rfl, rfl, rfl, rfl⟩
+  · exact ⟨rfl, rfl, rfl, rfl, by omega⟩
+
+theorem fc11_decRecv_fields (c : Client) : (decRecv c).inflight = c.inflight ∧ (decRecv c).sendQuota = c.sendQuota ∧
+    (decRecv c).maxRecv = c.maxRecv ∧ (decRecv c).maxSend = c.maxSend ∧ (decRecv c).recvQuota = c.recvQuota - 1 := by
+  unfold decRecv
+  split
+  · exact ⟨rfl, rfl, rfl, rfl, rfl⟩
+  · exact ⟨rfl, rfl, rfl, rfl, by omega⟩
+
+theorem fc11_incRecv_fields (c : Client) : (incRecv c).inflight = c.inflight ∧ (incRecv c).sendQuota = c.sendQuota ∧
+    (incRecv c).maxRecv = c.maxRecv ∧ (incRecv c).maxSend = c.maxSend ∧
+    (incRecv c).recvQuota = if c.recvQuota < c.maxRecv then c.recvQuota + 1 else c.recvQuota := by
+  unfold incRecv
+  split
+  · exact ⟨rfl, rfl, rfl, rfl, rfl⟩
+  · exact ⟨rfl, rfl, rfl, rfl, rfl⟩
+
+theorem fc11_incSend_fields (c : Client) : (incSend c).inflight = c.inflight ∧ (incSend c).recvQuota = c.recvQuota ∧
+    (incSend c).maxRecv = c.maxRecv ∧ (incSend c).maxSend = c.maxSend ∧
+    (incSend c).sendQuota = if c.sendQuota < c.maxSend then c.sendQuota + 1 else c.sendQuota := by
+  unfold incSend
+  split
+  · exact ⟨rfl, rfl, rfl, rfl, rfl⟩
+  · exact ⟨rfl, rfl, rfl, rfl, rfl⟩
+
+theorem fc11_flSet_fields (c : Client) (m : Msg) : (flSet c m).1.recvQuota = c.recvQuota ∧
+    (flSet c m).1.sendQuota = c.sendQuota ∧ (flSet c m).1.maxRecv = c.maxRecv ∧ (flSet c m).1.maxSend = c.maxSend := by
+  unfold flSet
+  split <;> exact ⟨rfl, rfl, rfl, rfl⟩
+
+theorem fc11_flGet_none {c : Client} {id : Nat} (h : flGet c id = none) : ∀ x ∈ c.inflight, (x.id == id) = false := by
+  unfold flGet at h
+  rw [List.find?_eq_none] at h
+  intro x hx
+  have := h x hx
+  simpa using this
+
+/-- replacing the record appended last (its id is used by no other record) -/
+theorem fc11_flSet_last (c : Client) (L : List Msg) (a a' : Msg) (hc : c.inflight = L ++ [a])
+    (hL : ∀ x ∈ L, (x.id == a.id) = false) (hid : a'.id = a.id) : (flSet c a').1.inflight = L ++ [a'] := by
+  unfold flSet flGet
+  have hsome : (c.inflight.find? (fun m => m.id == a'.id)).isSome = true := by
+    rw [List.find?_isSome]
+    exact ⟨a, by rw [hc]; simp, by rw [hid]; simp⟩
+  rw [if_pos hsome]
+  show c.inflight.map _ = _
+  rw [hc, List.map_append]
+  congr 1
+  · conv => rhs; rw [← List.map_id L]
+    apply List.map_congr_left
+    intro x hx
+    have := hL x hx
+    rw [hid]
+    simp [this]
+  · simp [hid]
+
+/-- deleting the record appended last (its id is used by no other record) -/
+theorem fc11_flDelete_last (c : Client) (L : List Msg) (a : Msg) (hc : c.inflight = L ++ [a])
+    (hL : ∀ x ∈ L, (x.id == a.id) = false) : (flDelete c a.id).1.inflight = L := by
+  unfold flDelete
+  show c.inflight.filter _ = _
+  rw [hc, List.filter_append]
+  have h1 : L.filter (fun m => m.id != a.id) = L := by
+    rw [List.filter_eq_self]
+    intro x hx
+    have := hL x hx
+    simp [bne, this]
+  rw [h1]
+  simp
+
+theorem fc11_flDelete_fields (c : Client) (id : Nat) : (flDelete c id).1.recvQuota = c.recvQuota ∧
+    (flDelete c id).1.sendQuota = c.sendQuota ∧ (flDelete c id).1.maxRecv = c.maxRecv ∧
+    (flDelete c id).1.maxSend = c.maxSend := ⟨rfl, rfl, rfl, rfl⟩
+
+/-- with one record per packet id, deleting the id of a member removes exactly that member from a count -/
+theorem fc11_countP_delete (f : Msg → Bool) (L : List Msg) (m : Msg) (hn : (L.map (·.id)).Nodup) (hm : m ∈ L) :
+    (L.filter (fun x => x.id != m.id)).countP f + (if f m then 1 else 0) = L.countP f := by
+  induction L with
+  | nil => cases hm
+  | cons x xs ih =>
+    rw [List.map_cons, List.nodup_cons] at hn
+    rcases List.mem_cons.mp hm with rfl | hm'
+    · have hx : xs.filter (fun y => y.id != m.id) = xs := by
+        rw [List.filter_eq_self]
+        intro y hy
+        have : y.id ≠ m.id := fun e => hn.1 (List.mem_map.mpr ⟨y, hy, e⟩)
+        simp [bne, this]
+      simp only [List.filter_cons, bne_self_eq_false, Bool.false_eq_true, if_false, hx, List.countP_cons]
+    · have hne : x.id ≠ m.id := fun e => hn.1 (List.mem_map.mpr ⟨m, hm', e.symm⟩)
+      have hb : (x.id != m.id) = true := by simp [bne, hne]
+      simp only [List.filter_cons, hb, if_true, List.countP_cons]
+      have := ih hn.2 hm'
+      omega
+
+/-! ### the receive side -/
+
+/-- `RecvAcc`, and no inbound record is marked deferred -/
+def fc11RecvP (c : Client) : Prop := RecvAcc c ∧ ∀ m ∈ c.inflight, m.expiry < 0 → fc11Inb m = false
+
+instance : DecidablePred fc11RecvP := fun c => by unfold fc11RecvP; infer_instance
+
+theorem fc11_inb_append (L : List Msg) (a : Msg) :
+    (L ++ [a]).countP fc11Inb = L.countP fc11Inb + (if fc11Inb a then 1 else 0) := by
+  rw [List.countP_append]
+  simp [List.countP_cons]
+
+theorem fc11RecvP_laws : Fc11Laws fc11RecvP := by
+  refine ⟨?_, ?_, ?_, ?_, ?_⟩
+  · intro a b h1 h2 _ h4 _ ⟨hr, hd⟩
+    refine ⟨?_, by rw [h1]; exact hd⟩
+    unfold RecvAcc inboundOpen at *
+    rw [h1, h2, h4]; exact hr
+  · intro c out ht _ hfr ⟨hr, hd⟩
+    have hno : fc11Inb out = false := by unfold fc11Inb; rw [ht]; rfl
+    have hF := fc11_decSend_fields { c with inflight := c.inflight ++ [out] }
+    refine ⟨fun _ => ⟨?_, ?_⟩, fun _ _ => ⟨?_, ?_⟩⟩
+    · unfold RecvAcc inboundOpen at *
+      rw [hF.1, hF.2.1, hF.2.2.1]
+      show c.recvQuota + (c.inflight ++ [out]).countP fc11Inb = c.maxRecv
+      rw [fc11_inb_append, hno]; simpa using hr
+    · rw [hF.1]
+      intro m hm hlt
+      rcases List.mem_append.mp hm with hm | hm
+      · exact hd m hm hlt
+      · rw [List.mem_singleton.mp hm]; exact hno
+    · have hl := fc11_flSet_last (decSend { c with inflight := c.inflight ++ [out] }) c.inflight out
+        { out with expiry := -1 } hF.1 (fc11_flGet_none hfr) rfl
+      have hq := fc11_flSet_fields (decSend { c with inflight := c.inflight ++ [out] }) { out with expiry := -1 }
+      unfold RecvAcc inboundOpen at *
+      rw [hl, hq.1, hq.2.2.1, hF.2.1, hF.2.2.1, fc11_inb_append]
+      have : fc11Inb { out with expiry := -1 } = false := by unfold fc11Inb; show (out.type == 4 || out.type == 5) = false; rw [ht]; rfl
+      rw [this]; simpa using hr
+    · have hl := fc11_flSet_last (decSend { c with inflight := c.inflight ++ [out] }) c.inflight out
+        { out with expiry := -1 } hF.1 (fc11_flGet_none hfr) rfl
+      rw [hl]
+      intro m hm hlt
+      rcases List.mem_append.mp hm with hm | hm
+      · exact hd m hm hlt
+      · rw [List.mem_singleton.mp hm]
+        unfold fc11Inb; show (out.type == 4 || out.type == 5) = false; rw [ht]; rfl
+  · intro c h1 h2 _
+    refine ⟨?_, by rw [h1]; intro m hm; cases hm⟩
+    unfold RecvAcc inboundOpen
+    rw [h1]; simpa using h2
+  · intro c hw ⟨hr, hd⟩ m hm hlt _
+    have hF := fc11_decSend_fields (flDelete c m.id).1
+    have hcnt := fc11_countP_delete fc11Inb c.inflight m hw.ids_nodup hm
+    rw [hd m hm hlt] at hcnt
+    refine ⟨?_, ?_⟩
+    · unfold RecvAcc inboundOpen at *
+      rw [hF.1, hF.2.1, hF.2.2.1]
+      show c.recvQuota + (c.inflight.filter (fun x => x.id != m.id)).countP fc11Inb = c.maxRecv
+      simp at hcnt
+      omega
+    · rw [hF.1]
+      intro x hx hxl
+      exact hd x (List.mem_filter.mp hx).1 hxl
+  · intro c a hta hea hfr hrq ⟨hr, hd⟩
+    have hin : fc11Inb a = true := by
+      unfold fc11Inb
+      rcases hta with h | h <;> rw [h] <;> rfl
+    have hD := fc11_decRecv_fields c
+    have hfr' : flGet (decRecv c) a.id = none := by rw [fc11_flGet_congr hD.1]; exact hfr
+    have hfl := fc11_flSet_fresh (decRecv c) a hfr'
+    have hinf : (flSet (decRecv c) a).1.inflight = c.inflight ++ [a] := by rw [hfl, ← hD.1]
+    have hq := fc11_flSet_fields (decRecv c) a
+    refine ⟨⟨?_, ?_⟩, fun _ => ⟨?_, ?_⟩⟩
+    · unfold RecvAcc inboundOpen at *
+      rw [hinf, hq.1, hq.2.2.1, hD.2.2.2.2, hD.2.2.1, fc11_inb_append, hin]
+      simp; omega
+    · rw [hinf]
+      intro m hm hlt
+      rcases List.mem_append.mp hm with hm | hm
+      · exact hd m hm hlt
+      · rw [List.mem_singleton.mp hm] at hlt; omega
+    · have hdl := fc11_flDelete_last (flSet (decRecv c) a).1 c.inflight a hinf (fc11_flGet_none hfr)
+      have hI := fc11_incRecv_fields (flDelete (flSet (decRecv c) a).1 a.id).1
+      have hY1 : (flDelete (flSet (decRecv c) a).1 a.id).1.recvQuota = c.recvQuota - 1 := by
+        show (flSet (decRecv c) a).1.recvQuota = _
+        rw [hq.1, hD.2.2.2.2]
+      have hY2 : (flDelete (flSet (decRecv c) a).1 a.id).1.maxRecv = c.maxRecv := by
+        show (flSet (decRecv c) a).1.maxRecv = _
+        rw [hq.2.2.1, hD.2.2.1]
+      unfold RecvAcc inboundOpen at *
+      rw [hI.1, hdl, hI.2.2.1, hI.2.2.2.2, hY1, hY2]
+      split <;> omega
+    · have hdl := fc11_flDelete_last (flSet (decRecv c) a).1 c.inflight a hinf (fc11_flGet_none hfr)
+      have hI := fc11_incRecv_fields (flDelete (flSet (decRecv c) a).1 a.id).1
+      rw [hI.1, hdl]; exact hd
+
 end Mochi.Broker
